@@ -214,6 +214,31 @@ M("c15-benign-guard-form", "C15", "json_tokener.c",
   "\t\t\tif (tok->depth + 1 > tok->max_depth - 1)\n\t\t\t{\n\t\t\t\ttok->err = json_tokener_error_depth;\n\t\t\t\tgoto out;\n\t\t\t}\n\t\t\tstate = json_tokener_state_object_value_add;",
   expect="silent")
 
+# ---- C01 -------------------------------------------------------------------------------------
+M("c01-ws-drops-cr", "C01", "json_tokener.c",
+  "return c == ' '\n\t    || c == '\\t'\n\t    || c == '\\n'\n\t    || c == '\\r';", "return c == ' '\n\t    || c == '\\t'\n\t    || c == '\\n';", needle="position")
+M("c01-array-sep-semicolon", "C01", "json_tokener.c",
+  "\t\t\telse if (c == ',')\n\t\t\t{\n\t\t\t\tsaved_state = json_tokener_state_array_after_sep;",
+  "\t\t\telse if (c == ';')\n\t\t\t{\n\t\t\t\tsaved_state = json_tokener_state_array_after_sep;", needle="AV@A")
+M("c01-escape-t-missing", "C01", "json_tokener.c",
+  "\t\t\tcase 'r':\n\t\t\tcase 't':\n\t\t\tcase 'f':\n\t\t\t\tif (c == 'b')", "\t\t\tcase 'r':\n\t\t\tcase 'f':\n\t\t\t\tif (c == 'b')", needle="")
+M("c01-escape-b-wrong-byte", "C01", "json_tokener.c",
+  "printbuf_memappend_checked(tok->pb, \"\\b\", 1);", "printbuf_memappend_checked(tok->pb, \"\\v\", 1);", needle="escape \\b")
+M("c01-hs-not-cleared", "C01", "json_tokener.c",
+  "\t\t\t\t\tprintbuf_memappend_checked(tok->pb,\n\t\t\t\t\t                           (char *)utf8_replacement_char, 3);\n\t\t\t\t}\n\t\t\t\ttok->high_surrogate = 0;",
+  "\t\t\t\t\tprintbuf_memappend_checked(tok->pb,\n\t\t\t\t\t                           (char *)utf8_replacement_char, 3);\n\t\t\t\t\ttok->high_surrogate = 0;\n\t\t\t\t}", needle="surrogate")
+M("c01-lone-low-no-replacement", "C01", "json_tokener.c",
+  "\t\t\t\t/* Got a low surrogate not preceded by a high */\n\t\t\t\tprintbuf_memappend_checked(tok->pb, (char *)utf8_replacement_char, 3);",
+  "\t\t\t\t/* Got a low surrogate not preceded by a high */", needle="C01.R3")
+M("c01-string-strlen", "C01", "json_tokener.c",
+  "json_object_new_string_len(tok->pb->buf, tok->pb->bpos);", "json_object_new_string_len(tok->pb->buf, strlen(tok->pb->buf));", needle="C01.R4")
+M("c01-colon-equals", "C01", "json_tokener.c",
+  "\t\t\tif (c == ':')\n\t\t\t{\n\t\t\t\tsaved_state = json_tokener_state_object_value;",
+  "\t\t\tif (c == '=')\n\t\t\t{\n\t\t\t\tsaved_state = json_tokener_state_object_value;", needle="KC")
+M("c01-benign-switch-to-if", "C01", "json_tokener.c",
+  "\t\t\tif (c == ':')\n\t\t\t{\n\t\t\t\tsaved_state = json_tokener_state_object_value;",
+  "\t\t\tif (!(c != 0x3a))\n\t\t\t{\n\t\t\t\tsaved_state = json_tokener_state_object_value;", expect="silent")
+
 
 def sh(cmd, **kw):
     return subprocess.run(cmd, shell=isinstance(cmd, str), stdout=subprocess.PIPE, stderr=subprocess.STDOUT, text=True, **kw)
